@@ -592,6 +592,13 @@ class Norm:
                 inv = any(k.arg == "invert" and ast.unparse(k.value) == "True" for k in e.keywords)
                 form = ("isin", self.key(e.args[0]), self.key(e.args[1]))
                 return negate(form) if (neg != inv) else form
+            if nm in ("np.logical_or.reduce", "np.logical_and.reduce", "np.bitwise_or.reduce", "np.bitwise_and.reduce") and e.args and isinstance(e.args[0], (ast.List, ast.Tuple)) \
+                    and len(e.args[0].elts) >= 1 and all(k.arg == "axis" and ast.unparse(k.value) == "0" for k in e.keywords) and len(e.args) == 1:
+                op = ast.BitAnd() if "and" in nm else ast.BitOr()       # element-wise over the listed (boolean) arrays
+                cur = e.args[0].elts[0]
+                for nxt in e.args[0].elts[1:]:
+                    cur = ast.BinOp(left=cur, op=op, right=nxt)
+                return self.b(cur, neg, integer)
             if nm in ("np.logical_and", "np.logical_or") and len(e.args) == 2:
                 op = ast.BitAnd() if nm.endswith("and") else ast.BitOr()
                 return self.b(ast.BinOp(left=e.args[0], op=op, right=e.args[1]), neg, integer)
